@@ -88,6 +88,16 @@ def steps(raw, rng):
             out.append((f"enum add symbol at {path}", put(raw, path, {**sub, "symbols": syms + ["NEW"]})))
         if isinstance(sub, dict) and t == "fixed":
             out.append((f"fixed size change at {path}", put(raw, path, {**sub, "size": sub["size"] + 1})))
+        # a named type replaced by a named type of another kind with the same name: the type names "match"
+        # but the types do not -- the rules give no result
+        if isinstance(sub, dict) and t in ("enum", "fixed", "record") and "name" in sub:
+            nm = sub["name"]
+            others = {"enum": {"type": "enum", "name": nm, "symbols": ["K0", "K1"]},
+                      "fixed": {"type": "fixed", "name": nm, "size": 1},
+                      "record": {"type": "record", "name": nm, "fields": [{"name": "kq", "type": "int", "default": 0}]}}
+            for k2, v2 in others.items():
+                if k2 != t:
+                    out.append((f"kind change {t}->{k2} keeping the name at {path}", put(raw, path, v2)))
         if isinstance(sub, list):
             out.append((f"reader not a union at {path}", put(raw, path, sub[0])))
             out.append((f"union reordered at {path}", put(raw, path, list(reversed(sub)))))
